@@ -441,7 +441,9 @@ func runAuth(r *prng.R, s *out.Sink, tier string) {
 			time.Sleep(2 * time.Millisecond)
 			cli.Close()
 		}()
-		viaHandle := r.Intn(3) == 0
+		// (a length prefix that reaches into the first frame damages that frame: the outcome of the authentication is then
+		// not observable through a delivered message, so that case always goes through authenticateConnection)
+		viaHandle := r.Intn(3) == 0 && what != "length-prefix-larger-than-data"
 		ans := ""
 		if !viaHandle {
 			var d string
